@@ -1291,7 +1291,8 @@ func (fg *FuncGen) finishLoops() {
 var coverReturns bool
 
 func (fg *FuncGen) finishReturns() {
-	if coverReturns {
+	if coverReturns && fg.c != nil && len(fg.c.Ensures) > 0 {
+		// reachability covers where a vacuous path would matter: functions with postconditions
 		for k, b := range fg.retBlocks {
 			o := &Obligation{Name: fmt.Sprintf("%s/cover.ret%d", shortKey(fg.key), k+1), Kind: "cover", Func: fg.key, Guard: fg.reach[b], Goal: "false", Expect: "sat",
 				Params: fg.paramConsts, Block: b.Index, Via: -1, Text: "the path condition of this return is satisfiable under all assumptions made on the way (vacuity guard)"}
